@@ -341,6 +341,9 @@ CLAIMED["C12"]["text"] = CLAIMED["C12"]["text"] + (" METATHESIS (Props/C12Meta, 
        "pairwise distinct positions, `&` returns a word in which the i-th captured position holds what the (n-1-i)-th held, for every i and EVERY number n of elements, and "
        "every other position is unchanged (metathesis_reverses) - element by element what `A=1 B=2 ... > n ... 2 1` writes.")
 
+_amend("C02", "text", "`$ > $` D3, numbers above usize::MAX D2, insertion exception past the end of the word D22, empty optional D25, ...; D6, D20, D23 were repaired)",
+       "`$ > $` D3, insertion exception past the end of the word D22, empty optional D25, ...; D2, D6, D20, D21, D23, D30, D31 were repaired)")
+
 
 def main():
     checks = []
